@@ -371,6 +371,21 @@ func (t *T) Two() (int, int) {
 	return t.n, 2
 }
 
+func pollute() int {
+	var a uint8 = 200
+	var b float64 = 1.5
+	var c int8 = -3
+	var d uint32 = 4000000000
+	e := "s"
+	f := []int{1}
+	g, h, i, j := a, b, c, d
+	var k uint8 = 9
+	l, m, n, o := b, a, d, c
+	p, q, r, s2 := a, b, a, b
+	t, u, v, w := c, d, c, d
+	return int(a) + int(b) + int(c) + int(d%7) + len(e) + len(f) + int(g) + int(h) + int(i) + int(j%7) + int(k) + int(l) + int(m) + int(n%7) + int(o) + int(p) + int(q) + int(r) + int(s2) + int(t) + int(u%7) + int(v) + int(w%7)
+}
+
 var cnt int
 
 func Reset() {
@@ -498,6 +513,10 @@ func vs(a int, b ...int) int {
 		"u := string(rune(65 + one()))\nr = len(u) + len([]byte(u))",
 		"if a > 5 {\n\tpanic(\"never\")\n}\nr = 1",
 		"delete(m, \"zz\")\ndelete(m, \"k\")\nr = len(m)",
+		"u := make(map[string]int, one())\nr = len(u)",
+		"u := make(map[int]int, 8)\nu[1] = one()\nr = u[1]",
+		"var z []int\nr = copy(s, z)\nq = copy(z, s)",
+		"for i := 0; i < 4; i++ {\n\tif i == 1 {\n\t\tcontinue\n\t}\n\tr = r + 1 + 2\n\tif r > 7 {\n\t\tbreak\n\t}\n}",
 		"if a > 5 {\n\treturn copy(s, mk())\n}\nr = 2",
 		"if a < 5 {\n\treturn len(append(s, one()))\n}\nr = 2",
 		"if a < 5 {\n\treturn int(float64(one()))\n}\nr = 2",
@@ -535,7 +554,7 @@ func vs(a int, b ...int) int {
 				continue
 			}
 			name := fmt.Sprintf("F%d", len(funcs))
-			funcs = append(funcs, fmt.Sprintf("func W%s(a int, b int) int {\n\tp0, p1, p2 := 11, 22, 33\n\tr := %s(a, b)\n\tif p0 != 11 || p1 != 22 || p2 != 33 {\n\t\treturn 777777\n\t}\n\treturn r\n}\n", name[1:], name))
+			funcs = append(funcs, fmt.Sprintf("func W%s(a int, b int) int {\n\tp0, p1, p2 := 11, 22, 33\n\tpollute()\n\tr := %s(a, b)\n\tif p0 != 11 || p1 != 22 || p2 != 33 {\n\t\treturn 777777\n\t}\n\treturn r\n}\n", name[1:], name))
 			funcs = append(funcs, fmt.Sprintf("func %s(a int, b int) int {\n\tr, q := 0, 0\n\ts := []int{7, 8, 9}\n\tm := map[string]int{\"k\": 5}\n\tt := &T{n: 4}\n%s\treturn r*1000 + q*100 + s[0] + s[1] + m[\"k\"] + t.n + cnt + len(s)\n}\n", name, c02indent(body, "\t")))
 			for _, args := range [][]goatlang.Value{{goatlang.Int(1), goatlang.Int(0)}, {goatlang.Int(0), goatlang.Int(2)}} {
 				calls = append(calls, cCall{Fn: "Reset"}, cCall{Fn: name, NRet: 1, Args: args}, cCall{Fn: "Reset"}, cCall{Fn: "W" + name[1:], NRet: 1, Args: args})
@@ -821,7 +840,7 @@ func c07corpus(r *report.Run) ([]cItem, []bool) {
 }
 
 func c07run(r *report.Run) {
-	r.Rule("abstract states (function, pc, operand-stack depth above the locals) of every function of every corpus program - call-in-every-position enumeration (84 statement forms with calls of 0/1/2 results and blanks x 6 neighbourhoods), fusion-window programs, wide-frame programs (10 statement groups behind 120..300 locals, entered directly and from a caller with as many live locals), C04 forms, C06, C08, C11, C12 corpora and the Go-statement inputs of the repository's test tables - compiled with the optimizer off and on; ALL paths explored; invariants I1 (one depth per pc), I2 (never pops into locals), I3 (branches stay inside the function, never into a nested header/body), I4 (RETURN n at depth n = declared results; body ends at depth 0), I5 (slot operands below the FUNC slot count), I7 (no placeholder survives), I8 (statement-only top level ends at depth 0 / Eval returns nothing); non-trivial = function with at least one branch")
+	r.Rule("abstract states (function, pc, operand-stack depth above the locals) of every function of every corpus program - call-in-every-position enumeration (88 statement forms with calls of 0/1/2 results and blanks x 6 neighbourhoods), fusion-window programs, wide-frame programs (10 statement groups behind 120..300 locals, entered directly and from a caller with as many live locals), C04 forms, C06, C08, C11, C12 corpora and the Go-statement inputs of the repository's test tables - compiled with the optimizer off and on; ALL paths explored; invariants I1 (one depth per pc), I2 (never pops into locals), I3 (branches stay inside the function, never into a nested header/body), I4 (RETURN n at depth n = declared results; body ends at depth 0), I5 (slot operands below the FUNC slot count), I7 (no placeholder survives), I8 (statement-only top level ends at depth 0 / Eval returns nothing); non-trivial = function with at least one branch")
 	r.Assume("opcode table (pops/pushes/successors) read off do.go, validated on every run by replaying the real VM's trace: each executed (pc, depth) must be an abstract state with the same depth", "the instruction list is read from the public WithCodeDump output")
 	items, stmtOnly := c07corpus(r)
 	r.Set("corpus_items", len(items))
